@@ -309,7 +309,7 @@ func genCodec(t *Tracer, m *Meta, tier string, seed int64) {
 				addf(x.E[2], 2)
 				return fs
 			}
-			it := Ev{"fields": fieldsOf(v), "enc": []int{}, "dn": -1, "dfields": []interface{}{}, "size": -1, "esize": -1, "pan": ""}
+			it := Ev{"fields": fieldsOf(v), "enc": []int{}, "dn": -1, "dfields": []interface{}{}, "size": -1, "esize": -1, "pan": "", "same": 0}
 			func() {
 				defer func() {
 					if rr := recover(); rr != nil {
@@ -323,6 +323,7 @@ func genCodec(t *Tracer, m *Meta, tier string, seed int64) {
 				n, d := te.Decode(append(append([]byte{}, enc...), junkBytes(r)...))
 				it["dn"] = n
 				it["dfields"] = fieldsOf(d.(structV))
+				it["same"] = b2i(d == interface{}(v))
 			}()
 			items = append(items, it)
 			if len(items) >= 100 {
@@ -341,7 +342,155 @@ func genCodec(t *Tracer, m *Meta, tier string, seed int64) {
 		}
 		m.class(fmt.Sprintf("struct:bigendian=%v", bigE))
 	}
+	// TypeEncoder over the other fixed-size types it accepts: builtin and DEFINED scalar
+	// types, arrays of them, structs with fields of defined types.  Decode must give back
+	// v itself: same dynamic type, same value (interface equality).
+	for _, bigE := range []bool{false, true} {
+		var bo binary.ByteOrder = binary.LittleEndian
+		if bigE {
+			bo = binary.BigEndian
+		}
+		gens := []func() interface{}{
+			func() interface{} { return r.Uint32() },
+			func() interface{} { return int16(r.Uint32()) },
+			func() interface{} { return tOff(r.Uint32()) },
+			func() interface{} { return tDelta(r.Uint32()) },
+			func() interface{} { return tStamp(r.Uint64()) },
+			func() interface{} { return tFlag(r.Uint32()) },
+			func() interface{} { return [3]tDelta{tDelta(r.Uint32()), -1, tDelta(r.Uint32())} },
+			func() interface{} {
+				return tRec{Off: tOff(r.Uint32()), Steps: [2][2]tDelta{{tDelta(r.Uint32()), -32768}, {32767, tDelta(r.Uint32())}}, F: tFlag(r.Uint32()), S: tStamp(r.Uint64())}
+			},
+		}
+		per := 12
+		if !quick {
+			per = 200
+		}
+		for gi, g := range gens {
+			te, err := encode.NewTypeEncoderEndian(g(), bo)
+			if err != nil {
+				panic(err)
+			}
+			items := []interface{}{}
+			for k := 0; k < per; k++ {
+				items = append(items, typeEncItem(te, g(), r))
+			}
+			t.NextCase()
+			m.Cases++
+			t.Emit(Ev{"ev": "codecstruct", "big": b2i(bigE), "type": typeEncName(gens[gi]()), "items": items})
+			m.Calls += len(items)
+			m.Distinct += len(items)
+			m.class(fmt.Sprintf("typeencoder:%T", gens[gi]()))
+		}
+	}
 	m.Samples = append(m.Samples, Ev{"enc": "i16", "value": -2, "expected_bytes": []int{254, 255}})
+}
+
+// defined fixed-size types for TypeEncoder
+type tOff uint32
+type tDelta int16
+type tStamp int64
+type tFlag uint8
+type tRec struct {
+	Off   tOff
+	Steps [2][2]tDelta
+	F     tFlag
+	S     tStamp
+}
+
+// the types TypeEncoder is exercised with, by the name logged in the trace
+var typeEncTypes = map[string]reflect.Type{
+	"structV": reflect.TypeOf(structV{}), "uint32": reflect.TypeOf(uint32(0)), "int16": reflect.TypeOf(int16(0)),
+	"tOff": reflect.TypeOf(tOff(0)), "tDelta": reflect.TypeOf(tDelta(0)), "tStamp": reflect.TypeOf(tStamp(0)),
+	"tFlag": reflect.TypeOf(tFlag(0)), "arr3tDelta": reflect.TypeOf([3]tDelta{}), "tRec": reflect.TypeOf(tRec{}),
+}
+
+func typeEncName(v interface{}) string {
+	for n, t := range typeEncTypes {
+		if t == reflect.TypeOf(v) {
+			return n
+		}
+	}
+	panic("unregistered type")
+}
+
+// typeEncItem pushes one value through Encode / GetSize / GetEncodedSize / Decode (junk appended).
+func typeEncItem(te *encode.TypeEncoder, v interface{}, r *rand.Rand) Ev {
+	it := Ev{"fields": flatFields(reflect.ValueOf(v)), "enc": []int{}, "dn": -1, "dfields": []interface{}{}, "size": -1, "esize": -1, "pan": "", "same": 0}
+	defer func() {
+		if rr := recover(); rr != nil {
+			it["pan"] = fmt.Sprint(rr)
+		}
+	}()
+	enc := te.Encode(v)
+	it["enc"] = bints(enc)
+	it["size"] = te.GetSize(v)
+	it["esize"] = te.GetEncodedSize(enc)
+	n, d := te.Decode(append(append([]byte{}, enc...), junkBytes(r)...))
+	it["dn"] = n
+	it["dfields"] = flatFields(reflect.ValueOf(d))
+	it["same"] = b2i(d == v)
+	return it
+}
+
+// fillFields is the inverse of flatFields: it sets the scalar leaves of v from fs[*k:].
+func fillFields(v reflect.Value, fs []interface{}, k *int) {
+	switch v.Kind() {
+	case reflect.Struct:
+		for i := 0; i < v.NumField(); i++ {
+			fillFields(v.Field(i), fs, k)
+		}
+	case reflect.Array:
+		for i := 0; i < v.Len(); i++ {
+			fillFields(v.Index(i), fs, k)
+		}
+	default:
+		f := fs[*k].(map[string]interface{})
+		*k++
+		mag := toIntSlice(f["mag"])
+		var u uint64
+		for j := len(mag) - 1; j >= 0; j-- {
+			u = u<<8 | uint64(mag[j])
+		}
+		if int(f["neg"].(float64)) == 1 {
+			u = -u
+		}
+		switch v.Kind() {
+		case reflect.Int8, reflect.Int16, reflect.Int32, reflect.Int64:
+			v.SetInt(int64(u))
+		default:
+			v.SetUint(u)
+		}
+	}
+}
+
+// flatFields lists the scalar leaves of a fixed-size value in declaration order as
+// sign + magnitude (what the spec's EncFields consumes).
+func flatFields(v reflect.Value) []interface{} {
+	fs := []interface{}{}
+	var walk func(v reflect.Value)
+	walk = func(v reflect.Value) {
+		switch v.Kind() {
+		case reflect.Struct:
+			for i := 0; i < v.NumField(); i++ {
+				walk(v.Field(i))
+			}
+		case reflect.Array:
+			for i := 0; i < v.Len(); i++ {
+				walk(v.Index(i))
+			}
+		case reflect.Int8, reflect.Int16, reflect.Int32, reflect.Int64:
+			n, mg := negMag(big.NewInt(v.Int()), int(v.Type().Size()))
+			fs = append(fs, Ev{"neg": n, "mag": mg})
+		case reflect.Uint8, reflect.Uint16, reflect.Uint32, reflect.Uint64:
+			n, mg := negMag(new(big.Int).SetUint64(v.Uint()), int(v.Type().Size()))
+			fs = append(fs, Ev{"neg": n, "mag": mg})
+		default:
+			fs = append(fs, Ev{"neg": 0, "mag": []int{-1}})
+		}
+	}
+	walk(v)
+	return fs
 }
 
 // ============================ C16: compacted arrays ================================
@@ -1338,58 +1487,26 @@ func replayCodecOther(t *Tracer, name string, e map[string]interface{}, r *rand.
 		}
 		t.Emit(Ev{"ev": "codecbytes", "n": n, "items": items})
 	case "codecstruct":
-		// structs are regenerated from their logged fields
+		// values are regenerated from their logged type name and scalar leaves
 		bigE := int(e["big"].(float64)) == 1
 		var bo binary.ByteOrder = binary.LittleEndian
 		if bigE {
 			bo = binary.BigEndian
 		}
-		te, _ := encode.NewTypeEncoderEndian(structV{}, bo)
+		tn := "structV"
+		if x, ok := e["type"].(string); ok {
+			tn = x
+		}
+		typ := typeEncTypes[tn]
+		te, _ := encode.NewTypeEncoderEndian(reflect.New(typ).Elem().Interface(), bo)
 		items := []interface{}{}
 		for _, x := range e["items"].([]interface{}) {
 			fs := x.(map[string]interface{})["fields"].([]interface{})
-			u := func(i int) uint64 {
-				f := fs[i].(map[string]interface{})
-				mag := toIntSlice(f["mag"])
-				var v uint64
-				for j := len(mag) - 1; j >= 0; j-- {
-					v = v<<8 | uint64(mag[j])
-				}
-				if int(f["neg"].(float64)) == 1 {
-					v = -v
-				}
-				return v
-			}
-			v := structV{A: int32(u(0)), B: uint16(u(1)), C: [2]int8{int8(u(2)), int8(u(3))}, D: u(4), E: [3]uint16{uint16(u(5)), uint16(u(6)), uint16(u(7))}}
-			it := Ev{"fields": fs, "enc": []int{}, "dn": -1, "dfields": []interface{}{}, "size": -1, "esize": -1, "pan": ""}
-			func() {
-				defer func() {
-					if rr := recover(); rr != nil {
-						it["pan"] = fmt.Sprint(rr)
-					}
-				}()
-				enc := te.Encode(v)
-				it["enc"], it["size"], it["esize"] = bints(enc), te.GetSize(v), te.GetEncodedSize(enc)
-				n, d := te.Decode(append(append([]byte{}, enc...), junkBytes(r)...))
-				it["dn"] = n
-				dv := d.(structV)
-				dfs := []interface{}{}
-				addf := func(val interface{}, w int) {
-					ng, mg := negMag(bigOf(val), w)
-					dfs = append(dfs, Ev{"neg": ng, "mag": mg})
-				}
-				addf(dv.A, 4)
-				addf(dv.B, 2)
-				addf(dv.C[0], 1)
-				addf(dv.C[1], 1)
-				addf(dv.D, 8)
-				addf(dv.E[0], 2)
-				addf(dv.E[1], 2)
-				addf(dv.E[2], 2)
-				it["dfields"] = dfs
-			}()
-			items = append(items, it)
+			pv := reflect.New(typ).Elem()
+			k := 0
+			fillFields(pv, fs, &k)
+			items = append(items, typeEncItem(te, pv.Interface(), r))
 		}
-		t.Emit(Ev{"ev": "codecstruct", "big": b2i(bigE), "items": items})
+		t.Emit(Ev{"ev": "codecstruct", "big": b2i(bigE), "type": tn, "items": items})
 	}
 }
